@@ -360,6 +360,11 @@ pub fn run(args: &[String]) -> i32 {
         u64::MAX,
     );
     merge(&mut rep, "references", accs, &stats, json!({"target_kinds": TARGET_KINDS, "target_renamed": [false, true], "positions": POSITIONS, "generic_parameter_carriers": PARAM_CARRIERS, "referrer_renamed": [false, true], "languages": 6, "configs": 2}));
+    let amb_k = if rep.thorough() { 3 } else { 2 };
+    super::common::ambient_family(&mut rep, "ambient_variations", amb_k + 1, |ch| { gen(ch); }, |ch, acc| {
+        let c = gen(ch);
+        check_case(&c, &ch.choices(), acc);
+    });
     require_nonvacuous(&mut rep);
     rep.cov("rule", json!("full product target kind × serde(rename) on the target × reference position × serde(rename) on the referrer × language × prefix configuration; from the parsed output: Defined = all definition names (incl. helper structs), Referenced = every non-primitive, non-generic-parameter name in a type tree, variant parent clause or Inner reference; Referenced ⊆ Defined and each item is defined as prefix + renamed name. non-trivial = some rename or prefix is in force."));
     rep.assume("names recognised as target-language primitives/builtins are not user references");
